@@ -88,7 +88,7 @@ impl<Req, Res, E> Chaos<Req, Res, E> {
 
     pub fn poll_ready(&mut self, cx: &mut Context) -> (r: Poll<Result<(), E>>)
         ensures r matches Poll::Ready(Ok(_)) ==> final(self).inner.ready@,   // #ready_only_when_inner_ready [C20]
-            final(self).rng == old(self).rng && final(self).config == old(self).config,   // #frame
+            final(self).rng == old(self).rng && final(self).config == old(self).config,   // #shared_state_handles_and_configuration_are_left_untouched [C19]
     //@body Chaos::poll_ready@Service
 
     pub fn call(&mut self, req: Req, clk: &mut Clock, Tracked(tr): Tracked<&mut Trace<Req, Res, E>>) -> (result: Result<Res, E>)
@@ -103,7 +103,7 @@ impl<Req, Res, E> Chaos<Req, Res, E> {
             (old(self).config.error_injector.custom && is_one(old(self).config.error_injector.rate)) ==> final(tr).calls == 0,   // #error_rate_one_fails_every_call [C19]
             final(tr).draws <= 3,   // #draws_a_bounded_number_of_values_in_a_fixed_order [C19]
             final(tr).draws_at_future == 0 || final(tr).draws_at_future == final(tr).draws,   // #all_draws_of_a_request_are_taken_together_on_one_side_of_the_futures_creation [C19]
-            final(self).rng == old(self).rng && final(self).config == old(self).config,   // #frame
+            final(self).rng == old(self).rng && final(self).config == old(self).config,   // #shared_state_handles_and_configuration_are_left_untouched [C19]
     //@body Chaos::call@Service
 }
 /// the injected delay is a whole number k of milliseconds with min_ms <= k <= max_ms (k == min_ms when max_ms <= min_ms),
